@@ -754,7 +754,10 @@ func reachableFuncs(root *ssa.Function) []*ssa.Function {
 // argValues: v itself, or, when v is a parameter of a closure nested in top (or of a helper the
 // pinned tree does not have), the values passed in that position at every call of it inside top.
 func argValues(v ssa.Value, top *ssa.Function) []ssa.Value {
-	par, ok := core.Unwrap(v).(*ssa.Parameter)
+	par, ok := v.(*ssa.Parameter)
+	if !ok {
+		par, ok = core.Unwrap(v).(*ssa.Parameter)
+	}
 	if !ok || par.Parent() == nil || par.Parent() == top {
 		return []ssa.Value{v}
 	}
@@ -769,10 +772,31 @@ func argValues(v ssa.Value, top *ssa.Function) []ssa.Value {
 		}
 	}
 	var out []ssa.Value
-	for _, h := range core.DeepFuncs(top) {
-		for _, s := range core.Sites(h, false) {
-			if s.Callee == g && s.Instr.Parent() == h && k < len(s.Common().Args) {
+	scan := func(h *ssa.Function) {
+		for _, in := range core.OwnInstrs(h) {
+			ci, isCall := in.(ssa.CallInstruction)
+			if !isCall {
+				continue
+			}
+			s := core.ResolveCall(ci)
+			if s.Callee == g && k < len(s.Common().Args) {
 				out = append(out, s.Common().Args[k])
+			}
+		}
+	}
+	seen := map[*ssa.Function]bool{}
+	for _, h := range core.DeepFuncs(top) {
+		seen[h] = true
+		scan(h)
+	}
+	if len(out) == 0 && g.Parent() == nil {
+		// a helper called from another helper of top
+		for _, h := range reachableFuncs(top) {
+			for _, d := range core.DeepFuncs(h) {
+				if !seen[d] {
+					seen[d] = true
+					scan(d)
+				}
 			}
 		}
 	}
@@ -836,4 +860,36 @@ func liveBlocks(f *ssa.Function, pred func(ssa.Instruction) bool) map[*ssa.Basic
 		}
 	}
 	return live
+}
+
+
+// unconditionalIn: the instruction runs on every normal execution of f: no branch outcome other than
+// "the loop it sits in has another element" dominates it, and when it sits in a helper of the package
+// the same holds for the helper's call (up to three levels).
+func unconditionalIn(w *core.World, f *ssa.Function, in ssa.Instruction, depth int) bool {
+	for _, fct := range core.FactsAt(in.Block()) {
+		if fct.If != nil && core.LoopHeadOf(fct.If.Block()) == fct.If.Block() {
+			continue // the own test of a loop the instruction sits in, or comes after
+		}
+		return false
+	}
+	if in.Parent() == f {
+		return true
+	}
+	if depth == 0 {
+		return false
+	}
+	if in.Parent().Parent() != nil {
+		return false
+	}
+	cs := callSitesOf(w, in.Parent())
+	if len(cs) == 0 {
+		return false
+	}
+	for _, c := range cs {
+		if !unconditionalIn(w, f, c, depth-1) {
+			return false
+		}
+	}
+	return true
 }
